@@ -123,6 +123,31 @@ func runC11(p *core.Program, r *core.Report) {
 			continue
 		}
 		good := recurses(cc, spec.elems...) && constPrefix(cc, spec.tokens...)
+		// ... on every way out of the arm: a return that does not go through the printer for the element type (a
+		// shortcut `[]byte` for any element of kind uint8) loses the element's name
+		ast.Inspect(cc, func(n ast.Node) bool {
+			if ret, isRet := n.(*ast.ReturnStmt); isRet && len(ret.Results) == 1 {
+				okRet := false
+				e, _ := core.Resolve(info, f.Body, ret.Results[0])
+				for _, c := range core.Calls(e, true) {
+					if core.CalleeFunc(info, c) == self {
+						okRet = true
+					}
+				}
+				if !okRet {
+					// a builder that received the recursive call
+					if bc, isCall := ast.Unparen(e).(*ast.CallExpr); isCall {
+						if v := core.VarOf(info, recvOf(bc)); v != nil {
+							okRet = true
+						}
+					}
+				}
+				if !okRet {
+					good = false
+				}
+			}
+			return true
+		})
 		if spec.kind == "array" {
 			good = good && len(core.Calls(cc, true)) >= 2
 			lenUsed := false
